@@ -109,6 +109,14 @@ CLAIMED = {
             "the host's asset source.",
             "type-closure of shared state + interprocedural root-sensitive write-effect summaries (go/ssa + CHA), lock-region dominance",
             "DESIGN.md §4 C09"),
+    "C02": ("Structural necessary conditions of transparent persistence: for the 17 structs of the persisted session (session, run, "
+            "step, contact, ticket, call, triggers, inputs, run summary) every field is written by the marshal side and restored "
+            "by the read side (through helpers), re-derived on read, or listed transient with its reason; every member of the 77 "
+            "envelope fields is both written and read; the transient parent run is re-derived (prepareForSprint dominates the flow "
+            "call in start and Resume, and parentRun has no other accessor). Does not decide that a restored session behaves "
+            "identically (value-level), nor that re-derived values equal the live ones.",
+            "marshal/read field-coverage and envelope symmetry (sibling-table agreement over go/ssa field accesses), dominance",
+            "DESIGN.md §4 C02"),
 }
 
 NOT_APPLICABLE = {}
